@@ -486,6 +486,13 @@ impl Property for C20 {
             case.pieces.insert(at, Piece::rec(big.into_bytes(), 9999));
             case.pieces.insert(at, Piece::gap(vec![b'\n']));
         }
+        if noisy && rng.chance(1, 6) {
+            // the producer died inside a value
+            while case.pieces.last().map_or(false, |p| p.kind == Kind::Gap) {
+                case.pieces.pop();
+            }
+            case.pieces.push(gen_truncated_tail(rng));
+        }
         let mut wish = PipeWish::any();
         wish.allow_corpus = false;
         let mut pipe = gen_pipe(rng, &wish);
@@ -623,6 +630,29 @@ impl Property for C20 {
             ctx.stats.invalid = true;
             ctx.jawk_panic = None;
             return None;
+        }
+        // noise is no failure: under a policy other than `panic`, a run whose clean stream
+        // succeeds succeeds on the noisy stream too (the reference is the same configuration
+        // on the garbage-free stream, so the verdict does not rest on go agreeing with itself)
+        if g.outcome.is_err() && pol != Policy::Panic && case.pieces.iter().any(|p| p.kind == Kind::Garbage) {
+            let mut clean = Vec::new();
+            for p in &case.pieces {
+                if p.kind == Kind::Garbage {
+                    clean.push(b'\n');
+                } else {
+                    clean.extend_from_slice(&p.bytes.0);
+                }
+            }
+            let gc = ctx.exec(ref_spec(case, &clean));
+            if gc.outcome.is_ok() {
+                return viol(
+                    "C20.exit-ok",
+                    format!(
+                        "under {pol:?} malformed input must not fail the run, yet go returns {} on the noisy stream and Ok on the garbage-free one",
+                        g.outcome.describe()
+                    ),
+                );
+            }
         }
         macro_rules! child {
             ($shim:expr, $preset:expr) => {
